@@ -560,4 +560,190 @@ theorem formEdgeSwap_formed {φ : Int → Int → Int → G} (hφ : Alt φ) (hd 
           simp only [Prod.mk.injEq] at h
           exact (hbad h.1).elim
 
+
+/-! ### `EdgeMatched` from global conformity (localisation) -/
+
+/-- the adjacency side of a cell store is consistent with its rows: walking the registration order and looking the
+    cells up gives the live cells (as a multiset).  True of a store built by `ref_cell_add` / `ref_cell_remove`
+    (C14 part B); here a hypothesis on the input grid. -/
+def OrderOK {β : Type} (s : Cells β) : Prop :=
+  (s.order.filterMap fun c => s.slots.rows.getD c none).Perm s.valid
+
+/-- `φ` restricted to the triples that contain both `n0` and `n1` — still alternating -/
+def φEdge (φ : Int → Int → Int → G) (n0 n1 : Int) (a b c : Int) : G :=
+  if (a = n0 ∨ b = n0 ∨ c = n0) ∧ (a = n1 ∨ b = n1 ∨ c = n1) then φ a b c else 0
+
+theorem φEdge_alt {φ : Int → Int → Int → G} (hφ : Alt φ) (n0 n1 : Int) : Alt (φEdge φ n0 n1) := by
+  refine ⟨fun a b c => ?_, fun a b c => ?_⟩
+  · unfold φEdge
+    have e : ((b = n0 ∨ c = n0 ∨ a = n0) ∧ (b = n1 ∨ c = n1 ∨ a = n1)) ↔
+        ((a = n0 ∨ b = n0 ∨ c = n0) ∧ (a = n1 ∨ b = n1 ∨ c = n1)) := by
+      constructor <;> rintro ⟨h1, h2⟩ <;> exact ⟨by tauto, by tauto⟩
+    by_cases h : (a = n0 ∨ b = n0 ∨ c = n0) ∧ (a = n1 ∨ b = n1 ∨ c = n1)
+    · rw [if_pos h, if_pos (e.mpr h)]; exact hφ.rot a b c
+    · rw [if_neg h, if_neg (fun h' => h (e.mp h'))]
+  · unfold φEdge
+    have e : ((b = n0 ∨ a = n0 ∨ c = n0) ∧ (b = n1 ∨ a = n1 ∨ c = n1)) ↔
+        ((a = n0 ∨ b = n0 ∨ c = n0) ∧ (a = n1 ∨ b = n1 ∨ c = n1)) := by
+      constructor <;> rintro ⟨h1, h2⟩ <;> exact ⟨by tauto, by tauto⟩
+    by_cases h : (a = n0 ∨ b = n0 ∨ c = n0) ∧ (a = n1 ∨ b = n1 ∨ c = n1)
+    · rw [if_pos h, if_pos (e.mpr h)]; exact hφ.swap a b c
+    · rw [if_neg h, if_neg (fun h' => h (e.mp h'))]; simp
+
+theorem φEdge_face (φ : Int → Int → Int → G) (n0 n1 : Int) (f : Face) :
+    φF (φEdge φ n0 n1) f = if f.has n0 && f.has n1 then φF φ f else 0 := by
+  simp only [φF, φEdge, Face.has, Bool.and_eq_true, Bool.or_eq_true, beq_iff_eq]
+  have e : ((f.n0 = n0 ∨ f.n1 = n0 ∨ f.n2 = n0) ∧ (f.n0 = n1 ∨ f.n1 = n1 ∨ f.n2 = n1)) ↔
+      (((n0 = f.n0 ∨ n0 = f.n1) ∨ n0 = f.n2) ∧ ((n1 = f.n0 ∨ n1 = f.n1) ∨ n1 = f.n2)) := by
+    constructor <;> rintro ⟨h1, h2⟩ <;> exact ⟨by omega, by omega⟩
+  by_cases h : (f.n0 = n0 ∨ f.n1 = n0 ∨ f.n2 = n0) ∧ (f.n0 = n1 ∨ f.n1 = n1 ∨ f.n2 = n1)
+  · rw [if_pos h, if_pos (e.mp h)]
+  · rw [if_neg h, if_neg (fun h' => h (e.mpr h'))]
+
+theorem faceSum_φEdge (φ : Int → Int → Int → G) (n0 n1 : Int) (l : List Face) :
+    faceSum (φEdge φ n0 n1) l = faceSum φ (l.filter fun f => f.has n0 && f.has n1) := by
+  induction l with
+  | nil => simp [faceSum]
+  | cons f t ih =>
+    simp only [faceSum, List.map_cons, List.sum_cons, List.filter_cons] at ih ⊢
+    rw [φEdge_face, ih]
+    by_cases h : (f.has n0 && f.has n1) = true
+    · simp only [h, if_true, List.map_cons, List.sum_cons]
+    · simp only [h, Bool.false_eq_true, if_false, zero_add]
+
+/-- a face of a tet only has nodes of the tet -/
+theorem tetFaces_nodes (t : Tet) (f : Face) (hf : f ∈ tetFaces t) (v : Int) (hv : f.has v = true) :
+    t.nodes.contains v = true := by
+  rcases t with ⟨a, b, c, d⟩
+  rw [tetFaces_eq] at hf
+  simp only [List.mem_cons, List.not_mem_nil, or_false] at hf
+  simp only [Face.has, Bool.or_eq_true, beq_iff_eq] at hv
+  simp only [Tet.nodes, List.contains_cons, List.contains_nil, Bool.or_false, Bool.or_eq_true, beq_iff_eq]
+  rcases hf with rfl | rfl | rfl | rfl <;> simp only at hv <;> tauto
+
+theorem edgeFaces_nil (n0 n1 : Int) (t : Tet) (h : ¬ (t.nodes.contains n0 = true ∧ t.nodes.contains n1 = true)) :
+    edgeFaces n0 n1 t = [] := by
+  unfold edgeFaces
+  rw [List.filter_eq_nil_iff]
+  intro f hf hh
+  simp only [Bool.and_eq_true] at hh
+  exact h ⟨tetFaces_nodes t f hf n0 hh.1, tetFaces_nodes t f hf n1 hh.2⟩
+
+/-- `having2` is the registration-order walk filtered by "contains both" -/
+theorem having2_eq {β : Type} (s : Cells β) (nodes : β → List Int) (v w : Int) :
+    (s.having2 nodes v w).map (·.2) =
+      (s.order.filterMap fun c => s.slots.rows.getD c none).filter fun x => (nodes x).contains v && (nodes x).contains w := by
+  unfold Cells.having2 Cells.having
+  induction s.order with
+  | nil => simp
+  | cons c rest ih =>
+    simp only [List.filterMap_cons]
+    cases hrow : s.slots.rows.getD c none with
+    | none => simp only [hrow]; exact ih
+    | some x =>
+      simp only [hrow]
+      by_cases hv : (nodes x).contains v = true
+      · simp only [hv, if_true, List.filter_cons, Bool.true_and]
+        by_cases hw : (nodes x).contains w = true
+        · simp only [hw, if_true, List.map_cons]; rw [ih]
+        · simp only [hw, Bool.false_eq_true, if_false]; exact ih
+      · simp only [hv, Bool.false_eq_true, if_false, List.filter_cons, Bool.false_and]; exact ih
+
+theorem sum_filter_zero {β : Type} (l : List β) (p : β → Bool) (F : β → G) (hz : ∀ x ∈ l, p x = false → F x = 0) :
+    (l.map F).sum = ((l.filter p).map F).sum := by
+  induction l with
+  | nil => simp
+  | cons a t ih =>
+    have ih := ih (fun x hx => hz x (List.mem_cons_of_mem _ hx))
+    simp only [List.map_cons, List.sum_cons, List.filter_cons]
+    cases hp : p a with
+    | true => simp only [if_true, List.map_cons, List.sum_cons, ih]
+    | false => simp only [Bool.false_eq_true, if_false, hz a List.mem_cons_self hp, zero_add, ih]
+
+/-- **localisation**: on a grid whose signed boundary chain vanishes for every alternating `φ` (a conforming mesh)
+    and whose adjacency is consistent, the faces through any edge are matched -/
+theorem edgeMatched_of_conforming {φ : Int → Int → Int → G} (hφ : Alt φ) (g : Grid α) (n0 n1 : Int)
+    (hot : OrderOK g.tets) (hos : OrderOK g.tris)
+    (hconf : ∀ χ : Int → Int → Int → G, Alt χ → meshBd χ g = 0) : EdgeMatched φ g n0 n1 := by
+  have h := hconf (φEdge φ n0 n1) (φEdge_alt hφ n0 n1)
+  unfold meshBd tetsBd at h
+  -- tets
+  have e1 : (g.tets.valid.map fun t => faceSum (φEdge φ n0 n1) (tetFaces t)).sum =
+      ((g.tets.having2 Tet.nodes n0 n1).map fun p => faceSum φ (edgeFaces n0 n1 p.2)).sum := by
+    have hF : ∀ t : Tet, faceSum (φEdge φ n0 n1) (tetFaces t) = faceSum φ (edgeFaces n0 n1 t) :=
+      fun t => faceSum_φEdge φ n0 n1 (tetFaces t)
+    simp only [hF]
+    rw [← (hot.map fun t => faceSum φ (edgeFaces n0 n1 t)).sum_eq]
+    rw [sum_filter_zero _ (fun x => (Tet.nodes x).contains n0 && (Tet.nodes x).contains n1)
+      (fun t => faceSum φ (edgeFaces n0 n1 t))]
+    · rw [← having2_eq g.tets Tet.nodes n0 n1, List.map_map]; rfl
+    · intro t _ hp
+      rw [edgeFaces_nil n0 n1 t (by simpa using hp)]; simp [faceSum]
+  -- tris
+  have e2 : (g.tris.valid.map fun t => φEdge φ n0 n1 t.n0 t.n1 t.n2).sum =
+      ((g.tris.having2 Tri.nodes n0 n1).map fun p => φ p.2.n0 p.2.n1 p.2.n2).sum := by
+    rw [← (hos.map fun t => φEdge φ n0 n1 t.n0 t.n1 t.n2).sum_eq]
+    rw [sum_filter_zero _ (fun x => (Tri.nodes x).contains n0 && (Tri.nodes x).contains n1)
+      (fun t => φEdge φ n0 n1 t.n0 t.n1 t.n2)]
+    · rw [← having2_eq g.tris Tri.nodes n0 n1, List.map_map]
+      congr 1
+      apply List.map_congr_left
+      intro p hp
+      have hc := (List.mem_filter.mp hp)
+      simp only [Function.comp, φEdge]
+      have h0 : (Tri.nodes p.2).contains n0 = true := by
+        have := (List.mem_filterMap.mp hc.1)
+        obtain ⟨cidx, _, hx⟩ := this
+        cases hrow : g.tris.slots.rows.getD cidx none with
+        | none => rw [hrow] at hx; cases hx
+        | some x =>
+          rw [hrow] at hx; simp only at hx
+          split at hx
+          · next hh => simp only [Option.some.injEq] at hx; subst hx; exact hh
+          · cases hx
+      have h1 : (Tri.nodes p.2).contains n1 = true := hc.2
+      simp only [Tri.nodes, List.contains_cons, List.contains_nil, Bool.or_false, Bool.or_eq_true, beq_iff_eq] at h0 h1
+      rw [if_pos ⟨by tauto, by tauto⟩]
+    · intro t _ hp
+      simp only [φEdge]
+      rw [if_neg]
+      intro hh
+      simp only [Tri.nodes, List.contains_cons, List.contains_nil, Bool.or_false, Bool.and_eq_false_iff,
+        Bool.or_eq_false_iff, beq_eq_false_iff_ne, ne_eq] at hp
+      rcases hp with hp | hp
+      · rcases hh.1 with e | e | e
+        · exact hp.1 e.symm
+        · exact hp.2.1 e.symm
+        · exact hp.2.2 e.symm
+      · rcases hh.2 with e | e | e
+        · exact hp.1 e.symm
+        · exact hp.2.1 e.symm
+        · exact hp.2.2 e.symm
+  rw [e1, e2] at h
+  exact sub_eq_zero.mp h
+
+
+/-! ### a decidable sufficient condition for `meshBd χ g = 0` (used by the non-vacuity examples) -/
+
+/-- every unordered face has signed multiplicity zero among the faces of the live tets and the live boundary tris -/
+def gridOrient (g : Grid α) : Bool :=
+  let pos := g.tets.valid.flatMap tetFaces
+  let neg := g.tris.valid.map fun t => (⟨t.n0, t.n1, t.n2⟩ : Face)
+  (pos ++ neg).all fun f => signedCount pos neg (sort3s f.n0 f.n1 f.n2).1 == 0
+
+theorem meshBd_zero_of_orient {φ : Int → Int → Int → G} (hφ : Alt φ) (g : Grid α) (h : gridOrient g = true) :
+    meshBd φ g = 0 := by
+  have := signed_lists_eq hφ _ _ h
+  unfold meshBd tetsBd
+  have e1 : faceSum φ (g.tets.valid.flatMap tetFaces) = (g.tets.valid.map fun t => faceSum φ (tetFaces t)).sum := by
+    unfold faceSum
+    induction g.tets.valid with
+    | nil => simp
+    | cons t r ih => simp only [List.flatMap_cons, List.map_append, List.sum_append, List.map_cons, List.sum_cons, ih]
+  have e2 : faceSum φ (g.tris.valid.map fun t => (⟨t.n0, t.n1, t.n2⟩ : Face)) =
+      (g.tris.valid.map fun t => φ t.n0 t.n1 t.n2).sum := by
+    unfold faceSum
+    rw [List.map_map]; rfl
+  rw [← e1, ← e2]; exact this
+
 end Refine.Lemmas.Cavity2
